@@ -381,6 +381,7 @@ pub fn c07(ctx: &mut Ctx, acc: &mut Acc) -> i32 {
             );
         }
     }
+    crate::evo::c07_cross(ctx, acc);
     0
 }
 
@@ -441,5 +442,6 @@ pub fn c08(ctx: &mut Ctx, acc: &mut Acc) -> i32 {
         }
         acc.count("types");
     }
+    crate::evo::c08_cross(ctx, acc);
     0
 }
